@@ -110,7 +110,7 @@ def section_entries(doc, pel):
     return names, [need(doc, n) for n in names]
 
 
-@PROP.given('user-data-parsers', lambda tier: ud_case(), quick=500, thorough=20000, shards_quick=8)
+@PROP.given('user-data-parsers', lambda tier: ud_case(), quick=1600, thorough=20000, shards_quick=8)
 def user_data_parsers(case, note):
     pel, plugins = case['pel'], case['plugins']
     creator = chr(pel['ph']['creator'])
@@ -278,7 +278,7 @@ def expected_src_module(pel, s):
     return 'o' + code[4:6].lower() + '00'
 
 
-@PROP.given('src-and-callout-parsers', lambda tier: src_case(), quick=500, thorough=20000, shards_quick=8)
+@PROP.given('src-and-callout-parsers', lambda tier: src_case(), quick=1600, thorough=20000, shards_quick=8)
 def src_and_callout_parsers(case, note):
     pel, plugins = case['pel'], case['plugins']
     data = M.encode(pel)
@@ -411,7 +411,7 @@ def m2c00_case(draw):
     return {'sub': sub, 'ver': ver, 'data': data, 'e2e': draw(st.integers(0, 3)) == 0}
 
 
-@PROP.given('io-drawer-plugin', lambda tier: m2c00_case(), quick=600, thorough=20000, shards_quick=8)
+@PROP.given('io-drawer-plugin', lambda tier: m2c00_case(), quick=1600, thorough=20000, shards_quick=8)
 def io_drawer_plugin(case, note):
     import udparsers.m2c00.m2c00 as plug
     import io_drawer.hlog as hlog
@@ -499,7 +499,7 @@ def skip_case(draw):
             'mode': draw(st.sampled_from(['-f', '-a', '-l'])), 'optimize': draw(st.booleans())}
 
 
-@PROP.given('skip-plugins-real', lambda tier: skip_case(), quick=16, thorough=400, shards_quick=8)
+@PROP.given('skip-plugins-real', lambda tier: skip_case(), quick=32, thorough=400, shards_quick=8)
 def skip_plugins_real(case, note):
     creator, comp = case['creator'], case['comp']
     with D.TempDir('c18') as top:
